@@ -60,6 +60,8 @@ inline void World::step(Proc &p) {
   Step st; st.vpid = p.vpid; st.op = r.op; st.a[0] = r.a[0]; st.a[1] = r.a[1]; st.a[2] = r.a[2];
   if (chosen.type == ALT_KILL) { note("pid " + std::to_string(p.vpid) + " (" + p.name + ") KILLED before " + opname(r.op)); kill_proc(p, SIGKILL); st.op = VK_KILL; st.injected = true; scn->after_step(*this, p, st); return; }
   if (chosen.type == ALT_SIGNAL) { note("signal " + std::to_string(chosen.arg) + " reaches pid " + std::to_string(p.vpid) + " (" + p.name + ") before " + opname(r.op)); raise_sig(p, chosen.arg); st.sigraised = chosen.arg; st.injected = true; scn->after_step(*this, p, st); return; }
+  if (chosen.type == ALT_SIGNAL_PARENT) { Proc *pp = P(p.ppid); note("signal " + std::to_string(chosen.arg) + " reaches the parent of pid " + std::to_string(p.vpid) + " before " + opname(r.op)); if (pp) { raise_sig(*pp, chosen.arg); cur = pp->vpid; } st.sigraised = chosen.arg; st.injected = true; scn->after_step(*this, p, st); return; }   // the parent runs next: its blocked call is interrupted
+  if (chosen.type == ALT_HOLD_EXIT) { note("pid " + std::to_string(p.vpid) + " (" + p.name + ") has closed its descriptors and takes a moment to finish"); for (auto &f : p.fds) k.ofd_unref(f.second.ofd); p.fds.clear(); p.held = true; st.sigraised = -1; st.injected = true; scn->after_step(*this, p, st); return; }   // a program that closes its output before it exits (the scenario releases it later)
   if (chosen.type == ALT_EXIT) { note("pid " + std::to_string(p.vpid) + " (" + p.name + ") exits " + std::to_string(chosen.arg) + " instead of " + opname(r.op)); kill_proc(p, 0, chosen.arg); st.op = VK_EXIT; st.ret = chosen.arg; st.injected = true; scn->after_step(*this, p, st); return; }
   if (chosen.type == ALT_TICK) { note("the clock advances by " + std::to_string(chosen.arg) + " s before " + opname(r.op)); advance_clock(k.clock + chosen.arg); st.injected = true; chosen.type = ALT_NONE; }   // then the call itself runs normally
   if (chosen.type == ALT_MACHINE_CRASH) { note("machine crash before " + opname(r.op) + " of pid " + std::to_string(p.vpid)); machine_crash(); return; }
